@@ -285,6 +285,10 @@ theorem coeff_perm {a b : List (X × R)} (ha : (keys a).Nodup) (h : a.Perm b) (x
   have hb : (keys b).Nodup := (List.Perm.nodup_iff (List.Perm.map _ h)).mp ha
   rw [coeff_eq_lsum ha, coeff_eq_lsum hb, lsum_perm _ h]
 
+theorem perm_of_lsum_eq {a b : List (X × R)} (ha : WF a) (hb : WF b)
+    (h : ∀ y, lsum (delta y) a = lsum (delta y) b) : a.Perm b :=
+  perm_of_coeff_eq ha hb (fun y => by rw [coeff_eq_lsum ha.1, coeff_eq_lsum hb.1, h])
+
 /-! ### coefficients of the operations -/
 
 theorem coeff_fromIter (it : List (X × R)) (y : X) : coeff (fromIter it) y = lsum (delta y) it := by
